@@ -61,6 +61,9 @@ func c17Program(r *rng.R, fuzz bool) (string, []c17Route) {
 	hostile()
 	b.WriteString("// swagger:response petResponse\ntype petResponse struct {\n\t// in: body\n\tBody Pet\n\t// the rate\n\tXRate int32 `json:\"X-Rate\"`\n}\n\n")
 	b.WriteString("// faultResponse is the error response.\n//\n// swagger:response faultResponse\ntype faultResponse struct {\n\t// in: body\n\tBody Fault\n}\n\n")
+	// a response and a model that share their name (the usual `error` pair)
+	b.WriteString("// genericErrorModel is the payload of genericError.\n//\n// swagger:model genericError\ntype genericErrorModel struct {\n\tMessage string `json:\"message\"`\n}\n\n")
+	b.WriteString("// genericErrorResponse is a response named like its model.\n//\n// swagger:response genericError\ntype genericErrorResponse struct {\n\t// in: body\n\tBody genericErrorModel\n\t// how long to wait\n\tRetryAfter int32 `json:\"Retry-After\"`\n}\n\n")
 	methods := []string{"GET", "POST", "PUT", "PATCH", "DELETE", "HEAD", "OPTIONS"}
 	var routes []c17Route
 	n := 4 + r.Intn(4)
@@ -121,6 +124,8 @@ func c17Program(r *rng.R, fuzz bool) (string, []c17Route) {
 				resp := "faultResponse"
 				if c == "200" {
 					resp = "petResponse"
+				} else if c == "default" && i%2 == 0 {
+					resp = "genericError"
 				}
 				fmt.Fprintf(&b, "//\t  %s: %s\n", c, resp)
 			}
@@ -250,8 +255,16 @@ func CheckC17(run *ev.Run) {
 					}
 				}
 				for _, c := range rt.Codes {
-					if _, ok := op.Responses[c]; !ok {
+					rv, ok := op.Responses[c]
+					if !ok {
 						what = fmt.Sprintf("lacks response %s", c)
+						continue
+					}
+					// a response given by name must come out as a reference to that response (headers and description live there)
+					if rm, ok := rv.(map[string]interface{}); ok {
+						if ref, _ := rm["$ref"].(string); !strings.HasPrefix(ref, "#/responses/") {
+							what = fmt.Sprintf("response %s is not a reference to a named response (%v)", c, clip(fmt.Sprint(rm), 120))
+						}
 					}
 				}
 			}
